@@ -346,7 +346,15 @@ def run_impl(case):
         from mystic import coupler as CP, constraints as CN
         ct = case.get("ctype")
         ctype = None if ct is None else (getattr(CP, ct) if isinstance(ct, str) else [getattr(CP, c) for c in ct])
-        join = getattr(CN, case["join"]) if case.get("join") else None
+        join = None
+        failed = [False]
+        if case.get("join"):
+            # the combinators return their last vector on success AND on failure; `onfail` (their documented keyword) tells them apart
+            def mark(v):
+                failed[0] = True
+                return v
+            _comb = getattr(CN, case["join"])
+            join = lambda *members: _comb(*members, onfail=mark)
         if ctype is None and join is None:
             cf = S.generate_constraint(solvers)
         else:
@@ -383,6 +391,7 @@ def run_impl(case):
     finally:
         _rnd.randint, _rnd.random = _ri, _rr
     obs["drew"] = drew[0]
+    obs["join_failed"] = failed[0]
     if "y" in obs:
         # which solvers leave the output unchanged (fixed-point monitor: such a solver's relation must hold there)
         fx = []
@@ -546,7 +555,7 @@ def monitor_fixed(case, obs, info):
         return out
     fx = obs.get("fixed") or []
     order = info["order"]
-    holds_any = False; usable = True
+    holds_any = False; usable = True; holds_all = True
     for pos, k in enumerate(order):
         i, cmp, term = rels[k]
         try:
@@ -558,10 +567,16 @@ def monitor_fixed(case, obs, info):
         sym = T.CMP_SYM[cmp]
         ok = rel_ok(sym, cmp, y[i], r1, tolf(r1, tol, rel))
         holds_any = holds_any or ok
+        holds_all = holds_all and ok
         if pos < len(fx) and fx[pos] is True and not ok:
             out.append(("solver/fixed-point-violates/%s" % sym, "the solver %r leaves %r unchanged although x%d %s %r is false there" %
                         (obs["docs"][pos], y, i, cmp, r1)))
-    if case.get("join") == "or_" and usable and not obs.get("drew") and not holds_any and all(math.isfinite(v) for v in case["x"]):
+    if case.get("join") == "and_" and usable and not obs.get("drew") and not obs.get("join_failed") and not holds_all \
+            and case["kind"] != "selfref" and all(math.isfinite(v) for v in case["x"]):
+        out.append(("join-and/success-but-violated", "generate_constraint(join=and_) reported success (onfail not called, no random draw) with %r "
+                    "for x=%r, where not every relation of %r holds" % (y, case["x"], obs["text"])))
+    if case.get("join") == "or_" and usable and not obs.get("drew") and not obs.get("join_failed") and not holds_any \
+            and all(math.isfinite(v) for v in case["x"]):
         out.append(("join-or/none-holds", "generate_constraint(join=or_) returned %r for x=%r, where no relation of %r holds" %
                     (y, case["x"], obs["text"])))
     return out
@@ -584,6 +599,18 @@ def monitor(case, obs, info=None):
             out.append(("solver/not-self-contained/%s" % key[2:], "the generated constraints function returned %r for %r, but %r %s" %
                         (y, x0, yr, "after mystic.symbolic was re-imported" if key == "y_reload" else "when called from several threads at once")))
     out.extend(monitor_fixed(case, obs, info))
+    if kind == "feed" and not case.get("join") and info and info.get("order") is not None and all(math.isfinite(v) for v in y):
+        # lines that feed one another: only the relation whose solver runs LAST is claimed (C13.compose_feeding_partial);
+        # which one that is follows from the couplers: inner = before, outer = after everything wrapped so far
+        run = info.get("run_order") or list(reversed(range(len(info["order"]))))
+        i, cmp, term = rels[info["order"][run[-1]]]
+        try:
+            r1 = _safe_eval(term, y, consts)
+        except (ZeroDivisionError, OverflowError, TypeError, ValueError):
+            r1 = math.nan
+        if math.isfinite(r1) and not rel_ok(T.CMP_SYM[cmp], cmp, y[i], r1, tolf(r1, tol, rel)):
+            out.append(("compose/last-relation/%s" % T.CMP_SYM[cmp], "the solver of `x%d %s ..` runs last (ctype=%r) but x%d %s %r is false at the output %r (x=%r)" %
+                        (i, cmp, case.get("ctype"), i, cmp, r1, y, x0)))
     if kind in ("feed", "selfref") or case.get("join") == "or_" or obs.get("drew"):
         return out                              # outside the hypotheses of the all-relations clause
     if case.get("join") == "and_" and kind == "neqmix":
@@ -831,6 +858,9 @@ def check_case(case, obs, rep, info, hist):
             fs.append(Finding("correspondence", "join/draws", "the implementation drew %d random numbers, the model needs none (model %s)" % (drew, rep), cdesc))
         else:
             compare(floats_of(r[1]["y"]))
+            if (mres == "fail") != bool(obs.get("join_failed")):
+                fs.append(Finding("correspondence", "join/verdict", "model says %s, the implementation %s onfail" %
+                                  (mres, "called" if obs.get("join_failed") else "did not call"), cdesc))
             if mres == "success":
                 bump(hist, "join:%s:calls=%s" % (mode, r[1].get("calls")))
         return fs
